@@ -22,9 +22,27 @@ var (
 	tlsErr  error
 )
 
+var (
+	strangerOnce sync.Once
+	strangerCfg  *tls.Config
+	strangerErr  error
+)
+
+// strangerTLS is a second, unrelated throw-away CA: a peer configured with it accepts TCP connections
+// on its port, but no handshake with a node of the shared CA succeeds.
+func strangerTLS() (*tls.Config, error) {
+	strangerOnce.Do(func() { strangerCfg, strangerErr = makeTLS() })
+	return strangerCfg, strangerErr
+}
+
 // sharedTLS returns one mutually-authenticating config (used by every node of a TLS case).
 func sharedTLS() (*tls.Config, error) {
-	tlsOnce.Do(func() {
+	tlsOnce.Do(func() { tlsCfg, tlsErr = makeTLS() })
+	return tlsCfg, tlsErr
+}
+
+func makeTLS() (tlsCfg *tls.Config, tlsErr error) {
+	func() {
 		caKey, err := ecdsa.GenerateKey(elliptic.P256(), rand.Reader)
 		if err != nil {
 			tlsErr = err
@@ -68,6 +86,6 @@ func sharedTLS() (*tls.Config, error) {
 			Certificates: []tls.Certificate{{Certificate: [][]byte{der}, PrivateKey: key}},
 			ClientCAs:    pool, RootCAs: pool, ClientAuth: tls.RequireAndVerifyClientCert,
 		}
-	})
+	}()
 	return tlsCfg, tlsErr
 }
